@@ -556,7 +556,25 @@ func bigStreams(r *ev.Run) []*stream {
 		return out
 	}
 	h.add("hand-long-huffman", []*block{fixedBlk(rep(lit(0xFF), 70000)...)}, "")
+	// non-uniform content, and a first part coded with 8-bit codes (no expansion) followed by a
+	// part coded with 9-bit codes (expansion): the single-stored-block fallback then re-encodes
+	// more than one 32 KiB decoder window, with input and output positions close together
+	mixed := func(n8, n9 int) []sym {
+		out := make([]sym, 0, n8+n9)
+		for i := 0; i < n8; i++ {
+			out = append(out, lit('0' + i%75))
+		}
+		for i := 0; i < n9; i++ {
+			out = append(out, lit(0x90 + i%100))
+		}
+		return out
+	}
+	h.add("hand-long-huffman", []*block{fixedBlk(mixed(33000, 40000)...)}, "")
+	h.add("hand-long-huffman", []*block{fixedBlk(mixed(0, 36000)...)}, "")
 	if r.Thorough() {
+		h.add("hand-long-huffman", []*block{fixedBlk(mixed(32768, 34000)...)}, "")
+		h.add("hand-long-huffman", []*block{fixedBlk(mixed(65540, 9000)...)}, "")
+		h.add("hand-long-huffman", []*block{fixedBlk(mixed(33000, 40000)...)}, "zlib")
 		h.add("hand-long-huffman", []*block{fixedBlk(rep(lit(0xFF), 66000)...), storedBlk(1, 0)}, "")
 		h.add("hand-long-huffman", []*block{dynBlk(T["chain15/eob-1bit"].styled(true, false, false), rep(lit('a'), 40000)...)}, "")
 		h.add("hand-long-huffman", []*block{fixedBlk(rep(lit(0xFF), 70000)...)}, "zlib")
